@@ -22,7 +22,7 @@ theorem mutClause_wrapper : ∀ k, wrapperKinds.contains k = true →
     mutClause k = .retFalse ∨ mutClause k = .child0 true := by
   intro k; cases k <;> decide
 
-theorem mutClause_through : ∀ k, (isPrefixKind k || isThroughKind k) = true →
+theorem mutClause_through : ∀ k, isLookThrough k = true →
     mutClause k = .retFalse ∨ mutClause k = .child0 true := by
   intro k; cases k <;> decide
 
@@ -216,5 +216,74 @@ theorem applyClause_mod_lv (k : Kind) (tm sp r0 r1 r2 ctc eq r0' r1' r2' : Bool)
     | exact absurd h (by decide)
     | (revert h h0 h1 h2
        cases sp <;> cases r0 <;> cases r0' <;> cases r1 <;> cases r1' <;> cases r2 <;> cases r2' <;> cases eq <;> decide)
+
+/-! ### constness survives `get_sub()` / `get_sub(i)` (the prefix re-wrapping of type.cpp) -/
+
+theorem getSubClause_CONSTANT : getSubClause .kCONSTANT = .rewrap := by decide
+theorem getSubFieldClause_CONSTANT : getSubFieldClause .kCONSTANT = .rewrap := by decide
+
+/-- the element type of a type declared const is declared const -/
+theorem constDeclared_getSub : ∀ t : Ty, t.constDeclared = true → t.getSub.constDeclared = true
+  | .mk k .nil, h => by
+    rw [Ty.constDeclared] at h
+    simp only [Children.constDeclared0, Bool.and_false, Bool.or_false] at h
+    have : k = .kCONSTANT := by simpa using h
+    subst this
+    rw [Ty.getSub, getSubClause_CONSTANT]
+    simp [Ty.createPrefix, Ty.constDeclared]
+  | .mk k (.cons l t r), h => by
+    rw [Ty.constDeclared] at h
+    by_cases hk : (k == Kind.kCONSTANT) = true
+    · have : k = .kCONSTANT := by simpa using hk
+      subst this
+      rw [Ty.getSub, getSubClause_CONSTANT]
+      simp [Ty.createPrefix, Ty.constDeclared]
+    · have hk' : (k == Kind.kCONSTANT) = false := by simpa using hk
+      simp only [hk', Bool.false_or, Bool.and_eq_true, Children.constDeclared0] at h
+      have ih := constDeclared_getSub t h.2
+      rw [Ty.getSub]
+      cases getSubClause k with
+      | skip => simpa [Children.sub0] using ih
+      | rewrap =>
+        simp only [Ty.createPrefix, Ty.constDeclared, Children.constDeclared0, Children.sub0, ih, h.1, Bool.and_self,
+          Bool.or_true]
+      | direct => simpa [Children.get0, Children.get] using h.2
+
+/-- the type of a field of a record type declared const is declared const -/
+theorem constDeclared_getSubField : ∀ (t : Ty) (i : Nat), t.recordShape = true → t.constDeclared = true →
+    (t.getSubField i).constDeclared = true
+  | .mk k .nil, i, _, h => by
+    rw [Ty.constDeclared] at h
+    simp only [Children.constDeclared0, Bool.and_false, Bool.or_false] at h
+    have : k = .kCONSTANT := by simpa using h
+    subst this
+    rw [Ty.getSubField, getSubFieldClause_CONSTANT]
+    simp [Ty.createPrefix, Ty.constDeclared]
+  | .mk k (.cons l t r), i, hs, h => by
+    rw [Ty.constDeclared] at h
+    by_cases hk : (k == Kind.kCONSTANT) = true
+    · have : k = .kCONSTANT := by simpa using hk
+      subst this
+      rw [Ty.getSubField, getSubFieldClause_CONSTANT]
+      simp [Ty.createPrefix, Ty.constDeclared]
+    · have hk' : (k == Kind.kCONSTANT) = false := by simpa using hk
+      simp only [hk', Bool.false_or, Bool.and_eq_true, Children.constDeclared0] at h
+      rw [Ty.recordShape] at hs
+      by_cases hr : (k == Kind.kRECORD) = true
+      · have : k = .kRECORD := by simpa using hr
+        subst this
+        exact absurd h.1 (by decide)
+      · have hr' : (k == Kind.kRECORD) = false := by simpa using hr
+        simp only [hr', Bool.false_eq_true, if_false] at hs
+        split at hs
+        · rename_i hq
+          have hts : t.recordShape = true := by simpa [Children.recordShape0] using hs
+          have ih := constDeclared_getSubField t i hts h.2
+          rw [Ty.getSubField]
+          rcases getSubFieldClause_qual k hr' hq with hc | hc
+          · simpa [hc, Children.subField0] using ih
+          · simp only [hc, Ty.createPrefix, Ty.constDeclared, Children.constDeclared0, Children.subField0, ih, h.1,
+              Bool.and_self, Bool.or_true]
+        · simp at hs
 
 end UtapModel.Const
